@@ -80,6 +80,9 @@ WINDOW_TEMPLATES = {
     "park-close":         ("0",  ["recv", "close r"]),
     "park-disc":          ("0",  ["drop r;send 1", "drop r"]),
     "park-disc-r":        ("0",  ["drop s;recv", "drop s"]),
+    "park-disc-a":        ("0 flav=sa",  ["drop r;send 1", "drop r"]),          # the last receive handle is an AsyncReceiver
+    "park-disc-ra":       ("0 flav=as",  ["drop s;recv", "drop s"]),            # the last send handle is an AsyncSender
+    "timed-send-disc-a":  ("0 flav=aa",  ["drop r;sendt 1 300", "drop r"]),
     # observers against a send+drop
     "observe":            ("u",  ["drop s;isterm r;tryr 0", "send 31;drop s"]),
     "two-close":          ("1",  ["try 1 0 0;close s", "close r;len r"]),
@@ -153,7 +156,10 @@ def gen_program(profile, rng, idx):
     seed = rng.randint(1, 10 ** 9)
     # every third program: `thread::park` may return without an unpark (std documents spurious wake-ups), injected by the scheduler
     spur = " spuriousp=80" if idx % 3 == 1 else ""
-    lines = [f"cap={cap} class={cls} par={par} seed={seed} strategy={strat} {profile.extra}{spur}".strip()]
+    # every other program: the handles the threads start with are async-flavoured on one or both sides (the last handle dropped, the one
+    # `close` is called on, the one a blocking call borrows as the other flavour ... then is an Async* one)
+    flav = "" if idx % 2 == 0 else " flav=" + ("sa", "as", "aa")[(idx // 2) % 3]
+    lines = [f"cap={cap} class={cls} par={par} seed={seed} strategy={strat} {profile.extra}{spur}{flav}".strip()]
     for t in range(nt):
         ops = []
         for k in range(rng.randint(*profile.ops)):
